@@ -568,6 +568,8 @@ def iter_all_any(m, st, inst, args, t):
     s = it[2]
     P = closure_table(m, st, inst, args[1], None)
     is_all = inst["npath"].endswith("::all")
+    if s[2][0] == "int" and s[2][1] == 0:
+        return TRUE if is_all else FALSE
     c = summ_content(s[3])
     if c is None:
         raise Unanalysable("all/any over an unsummarised region")
@@ -615,9 +617,11 @@ def iter_rposition(m, st, inst, args, t):
     summ = s[3]
     pb = m.p.ptr_bytes * 8
     # decide Some / None from the region summary
+    if s[2][0] == "int" and s[2][1] == 0:
+        return NONE
     if summ is None:
         raise Unanalysable("rposition over an unsummarised region")
-    if summ[0] == "empty" or (s[2][0] == "int" and s[2][1] == 0):
+    if summ[0] == "empty":
         return NONE
     if summ[0] == "const":
         idx = None
@@ -897,6 +901,30 @@ def wrapping_arith(m, st, inst, args, t):
         # single-cell: exact wrapping table
         return m.byte_binop(st, op, a, b, True)[1][0]
     raise Unanalysable("wrapping arithmetic on %s,%s" % (a[0], b[0]))
+
+
+@prim(*["core::num::<impl %s>::saturating_%s" % (ty, op) for ty in ("u8", "u16", "u32", "u64", "usize") for op in ("sub", "add")])
+def saturating_arith(m, st, inst, args, t):
+    from .absm import int_range
+    sub = inst["npath"].endswith("sub")
+    a, b = args
+    if a[0] not in ("int", "cell") or b[0] not in ("int", "cell"):
+        raise Unanalysable("saturating arithmetic on %s,%s" % (a[0], b[0]))
+    bits, signed = (a[2], a[3]) if a[0] == "int" else (a[3], a[4])
+    lo, hi = int_range(bits, signed)
+
+    def f(x, y):
+        return max(lo, min(hi, x - y if sub else x + y))
+
+    if a[0] == "int" and b[0] == "int":
+        return mk_int(f(a[1], b[1]), bits, signed)
+    if a[0] == "cell" and b[0] == "cell" and a[1] != b[1]:
+        raise Unanalysable("saturating arithmetic on two different input bytes")
+    cid = a[1] if a[0] == "cell" else b[1]
+    ta = TABLES.get(a[2]) if a[0] == "cell" else None
+    tb = TABLES.get(b[2]) if b[0] == "cell" else None
+    tab = tuple(f(ta[i] if ta else a[1], tb[i] if tb else b[1]) for i in range(256))
+    return m.mk_cell(st, cid, tab, bits, signed)
 
 
 @prim("core::num::<impl u16>::trailing_ones", "core::num::<impl u32>::trailing_ones", "core::num::<impl u64>::trailing_ones",
